@@ -547,8 +547,10 @@ def getitem_tens(t, idx, handler):
 def ext_attr(interp, o, attr, node):
     I = _I()
     name = I.ext_canon(f"{o.name}.{attr}")
-    if name == "jnp.pi":
+    if name in ("jnp.pi", "math.pi", "np.pi", "numpy.pi"):
         return PI
+    if name in ("jnp.e", "math.e"):
+        return alg.exp(Poly.const(1))
     if name == "jnp.newaxis":
         return None
     if name == "jnp.inf":
@@ -1484,6 +1486,67 @@ def _warn(it, a, k, node):
 @reg("typing.TypeVar")
 def _typevar(it, a, k, node):
     return _I().Ext("typing.TypeVarInstance")
+
+
+@reg("functools.partial")
+def _partial(it, a, k, node):
+    I = _I()
+    f, pre, prek = a[0], list(a[1:]), dict(k)
+    return I.PyClosure(lambda it2, args, kwargs: it2.call(f, pre + list(args), {**prek, **kwargs}, node), "partial")
+
+
+@reg("math.sqrt")
+def _msqrt(it, a, k, node):
+    return simplify_scalar(alg.sqrt(num_to_poly(a[0])))
+
+
+@reg("math.prod")
+def _mprod(it, a, k, node):
+    r = 1
+    for x in it.iterate(a[0], node):
+        r = binop(it, ast.Mult(), r, x, node)
+    return r
+
+
+@reg("math.ceil", "math.floor")
+def _mceil(it, a, k, node):
+    import math as _m
+
+    x = a[0]
+    if is_num(x):
+        return _m.ceil(x) if "ceil" in ast.unparse(node.func) else _m.floor(x)
+    raise Unsupported("math.ceil/floor of a symbolic value")
+
+
+@reg("jnp.broadcast_to")
+def _bcast(it, a, k, node):
+    return T.broadcast_to(_arr(a[0]), _shape_arg(a[1]))
+
+
+@reg("jnp.full_like")
+def _full_like(it, a, k, node):
+    return Tens.full(_arr(a[0]).shape, num_to_poly(a[1]))
+
+
+@reg("jnp.clip")
+def _clip(it, a, k, node):
+    lo = a[1] if len(a) > 1 else k.get("min", k.get("a_min"))
+    hi = a[2] if len(a) > 2 else k.get("max", k.get("a_max"))
+    return _arr(a[0]).map(lambda e: alg.fn("clip", e, num_to_poly(lo) if lo is not None else Poly.sym("-inf"), num_to_poly(hi) if hi is not None else Poly.sym("inf")))
+
+
+@reg("jnp.tile")
+def _tile(it, a, k, node):
+    t = _arr(a[0])
+    reps = a[1] if isinstance(a[1], (tuple, list)) else (a[1],)
+    reps = [_I()._static_int(r) for r in reps]
+    while len(reps) < t.ndim:
+        reps = [1] + reps
+    out = t
+    for ax, r in enumerate(reps[-t.ndim:] if t.ndim else []):
+        if r != 1:
+            out = T.concatenate([out] * r, ax)
+    return out
 
 
 @reg("itertools.product")
